@@ -27,6 +27,8 @@ OPEN_STATEMENTS = [
     'CubicFermionicSimulationGate (general weights: numpy.linalg.eigh), QuarticFermionicSimulationGate._decompose_ '
     '(numerical matrix square root) and DoubleExcitationGate._decompose_ (pi/8 phases) are covered by the oracle '
     'exp(-i t G) / decomposition == gate only; no theorem',
+    'slater_circuit_structure (adjacent qubits, parallel layers) is proved for descriptions drawn from the C11 schedule; that the real '
+    'givens_decomposition_square output is such a description is checked on generated matrices (correspondence)',
     'bogoliubov_transform / prepare_* / optimal_givens_decomposition / ffft: the conjugation identity and the prepared '
     'states are checked numerically (oracle, <= 5 resp. 8 qubits); the Givens decompositions themselves belong to C11; '
     'ffft_spec_partial proves that the Cooley-Tukey index recursion gives the DFT exponent table for every factor list; that each '
@@ -849,6 +851,46 @@ def glue_stream(ctx):
             ask({'op': 'c14.spinblock', 'rows': n, 'cols': cols, 'offzero': off},
                 lambda r, real_ans=real_ans, case=case: r == real_ans
                 or st.disagree('_is_spin_block_diagonal', case, real_ans, r))
+    # hypothesis of slater_circuit_structure on real outputs: every layer of givens_decomposition_square is drawn from one
+    # iteration of the C11 schedule (Model: slaterSchedulePairs), iterations in increasing order; and the real circuit of
+    # _slater_basis_change has its Ryxxy gates on adjacent qubits, a layer's gates on disjoint pairs
+    for n in range(1, budget(ctx.tier, 7, 10)):
+        for kind, W in slater_matrices(rs, rng, n):
+            case = {'fn': 'givens_decomposition_square / _slater_basis_change', 'n': n, 'kind': kind}
+            st.case(case)
+            st.count('fn:slater-schedule')
+            ok, dec = safe(st, 'givens_decomposition_square', case,
+                           lambda: of.givens_decomposition_square(W.copy())[0])
+            if not ok:
+                continue
+            real_layers = [[[int(o[0]), int(o[1])] for o in layer] for layer in dec]
+
+            def fin(r, real_layers=real_layers, case=case):
+                k = 0
+                for layer in real_layers:
+                    while k < len(r) and not all(p in r[k] for p in layer):
+                        k += 1
+                    if k == len(r):
+                        st.disagree('a layer of givens_decomposition_square is not drawn from the C11 schedule', case,
+                                    real_layers, r)
+                        return
+                    k += 1
+            ask({'op': 'c14.slaterschedule', 'n': n}, fin)
+            qubits = cirq.LineQubit.range(n)
+            pos = {q: i for i, q in enumerate(qubits)}
+            if kind.startswith('spin-block'):
+                continue
+            ok, ops = safe(st, 'bogoliubov_transform', case,
+                           lambda: list(cirq.flatten_op_tree(of.bogoliubov_transform(qubits, W.copy()))))
+            if ok:
+                for o in ops:
+                    if isinstance(o.gate, cirq.PhasedISwapPowGate):
+                        a, b = pos[o.qubits[0]], pos[o.qubits[1]]
+                        if b != a + 1:
+                            st.violate('_slater_basis_change places a Givens rotation on non-adjacent qubits', case,
+                                       {'qubits': [a, b]})
+                    elif o.gate == cirq.X:
+                        st.violate('_slater_basis_change emits an X gate without initial state', case, {})
     # ffft recursion structure
     nmax = budget(ctx.tier, 16, 36)
     for n in range(1, nmax + 1):
